@@ -117,6 +117,7 @@ def itemOf (t : List String) : Option (Bool × Item) :=
   | c :: "struct" :: n :: h :: sp => some (c == "1", .struct (natOf n) (natOf h) (specOf sp))
   | c :: "message" :: n :: id :: h :: sp => some (c == "1", .message (natOf n) (intOf id) (natOf h) (specOf sp))
   | c :: "signal" :: n :: id :: [h] => some (c == "1", .signal (natOf n) (intOf id) (natOf h))
+  | c :: "reserved" :: n :: id :: [h] => some (c == "1", .reserved (natOf n) (intOf id) (natOf h))
   | _ => none
 
 def errStr : Err → String
@@ -134,10 +135,48 @@ def regLines (R : Reg) : List String :=
   R.aliases.map (fun a => s!"a {a.name} {a.target} {if a.isStruct then 1 else 0} {a.esize} {a.align}") ++
   R.structs.map (regLine "s") ++ R.msgs.map (regLine "m")
 
+/-! ### the combined YAML as canonical lines (no hashes, no core flags: the file has neither) -/
+
+def specStr : FieldsSpec → String
+  | .reuse m => s!"R {m}"
+  | .list fs => joinSp ("L" :: fs.map (fun f => s!"{f.1}:{f.2.1}:{optStr toString f.2.2}"))
+
+def yItemStr : Item → String
+  | .const n v => s!"const {n} {valStr v}"
+  | .strConst n s => s!"str {n} {s}"
+  | .alias n t => s!"alias {n} {t}"
+  | .hostId n v => s!"host {n} {v}"
+  | .moduleId n v => s!"mod {n} {v}"
+  | .struct n _ f => s!"struct {n} {specStr f}"
+  | .message n id _ f => s!"message {n} {id} {specStr f}"
+  | .signal n id _ => s!"signal {n} {id}"
+  | .reserved n id _ => s!"reserved {n} {id}"
+
+/-- what `YAMLCompiler.generate` writes, section by section in the writer's key order -/
+def yamlLines (fs : List FileItems) : List String :=
+  -- the writer forces `IMPORT_COREDEFS: false` and never fills `imports` (the closure is flattened into this one file)
+  ["opt IMPORT_COREDEFS 0", "imports 0"] ++ (combinedSections fs).flatMap (fun s => s!"sec {s.1} {s.2.length}" :: s.2.map yItemStr)
+
+/-! ### paths (M9c) -/
+
+def segOf (s : String) : Seg := if s == "^" then .up else if s == "." then .cur else .name (natOf s)
+def segStr : Seg → String
+  | .up => "^" | .cur => "." | .name n => toString n
+
+def srcLine (x : Name × List Seg) : String := joinSp (toString x.1 :: x.2.map segStr)
+
 structure Case where
   id : String := ""
   autoPad : Bool := true
   items : List (Bool × Item) := []
+  files : List FileItems := []           -- the same items file by file (FILE markers)
+  paths : List AbsPath := []             -- resolved path of each file (FILE markers), parallel to `files`
+  pkgDir : AbsPath := []
+  coreDirName : Nat := 0
+  envs : List Env := []                  -- the environments of the real compile runs
+  srcs : List String := []               -- `type_source` of every class of the real Python output
+  yaml : List String := []               -- canonical lines of the real combined file
+  hasYaml : Bool := false
   outcome : List String := []
   reg : List String := []
   reg2 : List String := []
@@ -171,7 +210,8 @@ def coreOf (items : List (Bool × Item)) : Core :=
     strs := cs.filterMap (fun x => match x.2 with | .strConst n _ => some n | _ => none)
     hosts := cs.filterMap (fun x => match x.2 with | .hostId n _ => some n | _ => none)
     mods := cs.filterMap (fun x => match x.2 with | .moduleId n _ => some n | _ => none)
-    msgs := cs.filterMap (fun x => match x.2 with | .message n .. => some n | .signal n .. => some n | _ => none)
+    msgs := cs.filterMap (fun x => match x.2 with
+      | .message n .. => some n | .signal n .. => some n | .reserved n .. => some n | _ => none)
     structs := cs.filterMap (fun x => match x.2 with | .struct n .. => some n | _ => none)
     aliases := cs.filterMap (fun x => match x.2 with | .alias n _ => some n | _ => none) }
 
@@ -221,7 +261,50 @@ def finishCase (T : Tables) (fmtDen : List (Name × Den)) (c : Case) : List Stri
         if pred != real then
           out := out ++ [s!"{c.id} CORR diff loads.{nm} model-discipline={pred} tool={real}"]
       | none => pure ()
+    -- CORR 4b: what the theorems of Props/C15.lean predict from the registry alone (`python_loads_iff`,
+    -- `javascript_loads_iff`, `matlab_loads_iff`, `loadable` for C) against the real tools
+    if decide ((defNames c.items).Nodup) then
+      let inF := R.aliasOfStruct || R.structUsesMsg
+      for (nm, pred) in [("py", some (!inF)), ("js", some (!R.aliasOfStruct)), ("m", some (!inF)),
+                         ("c", if inF then none else some true)] do
+        match c.load.find? (·.1 == nm), pred with
+        | some (_, real), some p =>
+          if p != real then
+            out := out ++ [s!"{c.id} CORR diff predict.{nm} theorem-side-condition={p} tool={real}"]
+        | _, _ => pure ()
   | _, _ => pure ()
+  -- CORR 5: the combined YAML — the writer's sections, and what a re-parse of them gives
+  let filesOk := flattenFiles c.files == c.items
+  if !filesOk && (c.hasYaml || c.hasReg2) then
+    out := out ++ [s!"{c.id} CORR diff combined.files FILE markers do not flatten to the ITEM list"]
+  if filesOk && c.hasYaml then
+    match firstDiff (yamlLines c.files) c.yaml with
+    | some d => out := out ++ [s!"{c.id} CORR diff combined.yaml {d}"]
+    | none => pure ()
+  if filesOk && c.hasReg2 then
+    let m2 := match elaborate T c.autoPad (combine c.files) {} with
+      | .error e => ["parse-failed err_" ++ errStr e]
+      | .ok R2 => regLines R2
+    match firstDiff m2 c.reg2 with
+    | some d => out := out ++ [s!"{c.id} CORR diff combined.reparse {d}"]
+    | none => pure ()
+  -- CORR 6: the path arithmetic — for every environment the real compiler was run in, the `core` marks and the
+  -- `type_source` strings the model derives from the resolved paths are the ones observed
+  if filesOk && !c.envs.isEmpty && c.paths.length == c.files.length then
+    let fp := c.files.zip c.paths
+    let disk : Disk :=
+      { pkgDir := c.pkgDir,
+        coreFiles := (fp.filter (·.1.core)).map (fun x => (x.2, x.1.items)),
+        files := (fp.filter (fun x => !x.1.core)).map (fun x => (x.2, x.1.items)) }
+    -- (the harness marks as core exactly the files parsed through `import_coredefs`, and sends them first)
+    for e in c.envs do
+      let derived := disk.fileItems c.coreDirName (storedRoot e)
+      if derived != c.files then
+        out := out ++ [s!"{c.id} CORR diff paths.core the core marks derived from the paths differ from the observed ones"]
+      if c.outcome == ["ok"] then
+        match firstDiff (sortStrs ((disk.sources (storedRoot e)).map srcLine)) (sortStrs c.srcs) with
+        | some d => out := out ++ [s!"{c.id} CORR diff paths.source {d}"]
+        | none => pure ()
   if out.isEmpty then out := [s!"{c.id} CORR ok"]
   -- PROP C04 on the implementation's observation
   let p04 :=
@@ -241,7 +324,13 @@ def finishCase (T : Tables) (fmtDen : List (Name × Den)) (c : Case) : List Stri
     | ["ok"] =>
       let real : List (String × Bool) := c.load.map (fun (x : String × Bool) => ("tool_" ++ x.1, x.2))
       match firstFalse (real ++ loadClauses c.py c.c c.js (dropUse c.skipHdr c.m) (corePre c.items)) with
-      | some x => "fail " ++ x
+      | some x =>
+        -- the finding class, decided by the Lean predicates on the model's registry (Spec: `Reg.aliasOfStruct` = C15-F3,
+        -- `Reg.structUsesMsg` = C15-F4 — the side conditions of `loadable`)
+        let cls := match model with
+          | .ok R => (if R.aliasOfStruct then " class:F3" else "") ++ (if R.structUsesMsg then " class:F4" else "")
+          | .error _ => ""
+        "fail " ++ x ++ cls
       | none => "ok"
     | ["err", "internal"] => if c.documented then "fail internal_error_on_documented_closure" else "skip"
     | _ => "skip"
@@ -250,7 +339,9 @@ def finishCase (T : Tables) (fmtDen : List (Name × Den)) (c : Case) : List Stri
     if !c.hasReg2 then "skip"
     else if sortStrs c.reg == sortStrs c.reg2 then "ok"
     else match firstDiff (sortStrs c.reg) (sortStrs c.reg2) with
-      | some d => "fail combined_roundtrip " ++ d
+      | some d =>
+        -- the clause names the class: `noFwdRef` (Spec, the hypothesis of `combined_yaml_roundtrip`) false = C16-F2
+        (if noFwdRef T c.items then "fail combined_roundtrip " else "fail combined_roundtrip_forward_ref ") ++ d
       | none => "ok"
   return out ++ [s!"{c.id} PROP C04 {p04}", s!"{c.id} PROP C15 {p15}", s!"{c.id} PROP C16 {p16}"]
 
@@ -264,12 +355,29 @@ def step (st : St) (line : String) : St × List String :=
   | "T" :: "fmt" :: r => ({ st with fmtDen := r.map denOf }, [])
   | "T" :: r => ({ st with T := tableLine st.T r }, [])
   | ["CASE", id, ap, doc, skip] => ({ st with c := { id := id, autoPad := ap == "1", documented := doc == "1", skipHdr := skip == "1" } }, [])
+  | "FILE" :: core :: path =>
+    ({ st with c := { st.c with files := st.c.files ++ [{ core := core == "1", items := [] }],
+                                paths := if path.isEmpty then st.c.paths else st.c.paths ++ [path.map natOf] } }, [])
+  | "PKG" :: k :: path => ({ st with c := { st.c with coreDirName := natOf k, pkgDir := path.map natOf } }, [])
+  | "ENV" :: n :: r =>
+    let k := natOf n
+    let cwd := (r.take k).map natOf
+    match r.drop k with
+    | a :: segs => ({ st with c := { st.c with envs := st.c.envs ++
+        [{ cwd := cwd, root := { abs := a == "1", segs := segs.map segOf }, outDir := { abs := false, segs := [] } }] } }, [])
+    | [] => (st, [])
+  | "SRC" :: r => ({ st with c := { st.c with srcs := st.c.srcs ++ [joinSp r] } }, [])
   | "ITEM" :: r => match itemOf r with
-    | some it => ({ st with c := { st.c with items := st.c.items ++ [it] } }, [])
+    | some it =>
+      let fs := match st.c.files.reverse with
+        | f :: rest => (({ f with items := f.items ++ [it.2] }) :: rest).reverse
+        | [] => [{ core := it.1, items := [it.2] }]
+      ({ st with c := { st.c with items := st.c.items ++ [it], files := fs } }, [])
     | none => (st, [s!"{st.c.id} CORR diff unparsable-item {line}"])
   | "OUTCOME" :: r => ({ st with c := { st.c with outcome := r } }, [])
   | "REG" :: r => ({ st with c := { st.c with reg := st.c.reg ++ [joinSp r] } }, [])
   | "REG2" :: r => ({ st with c := { st.c with reg2 := st.c.reg2 ++ [joinSp r], hasReg2 := true } }, [])
+  | "YAML" :: r => ({ st with c := { st.c with yaml := st.c.yaml ++ [joinSp r], hasYaml := true } }, [])
   | ["REG2NONE"] => ({ st with c := { st.c with hasReg2 := true } }, [])
   | "PY" :: r => ({ st with c := { st.c with py := st.c.py ++ [stmtOf r] } }, [])
   | "C" :: r => ({ st with c := { st.c with c := st.c.c ++ [stmtOf r] } }, [])
